@@ -65,7 +65,7 @@ def units(tier):
     for pen, fi, fire in acc:
         runs.append(dict(solver='AndersonCD', datafit='Quadratic', penalty=pen, X='corr32', max_iter=1, max_epochs=fire,
                          max_epochs_unpatched=7, acc_stub=fire, p0=2, fit_intercept=fi, ws_strategy='subdiff', warm=True))
-    runs.append(dict(solver='GramCD', datafit='Quadratic', penalty='L1', X='corr32', max_iter=1, max_iter_unpatched=8,
+    runs.append(dict(solver='GramCD', datafit='Quadratic', penalty='L1', X='corr32', max_iter=1, max_iter_unpatched=7,
                      acc_stub=1, use_acc=True, greedy_cd=False, warm=True, fit_intercept=False))
     # two outer iterations with a one-feature working set that changes in between, an extrapolation proposed in each:
     # state kept across outer iterations (accelerator buffers) must not leak into the accepted point
@@ -85,6 +85,10 @@ def units(tier):
     for fi in (False, True):
         us.append(Unit('C03/S/group_pn_linesearch[intercept=%s]' % fi, ST.u_pn_linesearch,
                        dict(X='corr32', fit_intercept=fi, group=True), wall_s=120, timeout_ms=8000, patched=True))
+    # MultiTaskBCD's inline Anderson step (one task, 6 epochs): see the unit's docstring
+    for fi, sp in ((False, False), (True, False), (True, True)):
+        us.append(Unit('C03/D/MultiTaskBCD-extrapolation[intercept=%s,sparse=%s]' % (fi, sp), ST.u_multitask_acc,
+                       dict(fit_intercept=fi, sparse=sp), wall_s=150, max_paths=3000, timeout_ms=8000, patched=True))
     return us
 
 
